@@ -9,6 +9,13 @@
     map) and compared with the Coq model of the site, whose order-independence is proved in Props/C05.v.
       outputs of two orders differ              -> VIOLATION (the property itself, replayable on the driver)
       outputs agree but differ from the model   -> broken tie
+(c) MinHash / LSH stage (hook det_minhash): signatures, band keys, candidate sets and estimates of feature sets whose distinct
+    feature counts sweep 10, 100, 255, 256, 257, 300, 500, 1000 (more in the thorough tier) and of the fragments of generated LARGE
+    functions, repeated in one process and in fresh processes: any difference -> VIOLATION; the common answer must be the
+    MinHash of the SET (order/repetition independent, element-wise minimum over a union) -> else broken tie.
+    End to end: families of near-identical large functions (LSH feature counts just above 256 and upwards, measured through the
+    hook) analysed 4-6 times with `lsh_enabled = "true"` and several lsh_similarity_threshold values (default, 0.78, ...);
+    thorough tier also LSH auto mode (lsh_auto_threshold lowered to 3 fragments). Reports must be identical.
 """
 import json
 import os
@@ -749,6 +756,10 @@ def big_cli_start(ck, tier, big_files, info):
         cfgs.append(("lsh-default" if th is None else "lsh-%s" % th, cfg))
     if tier != "quick":
         cfgs.append(("lsh-0.78-star", '[clones]\nlsh_enabled = "true"\nlsh_similarity_threshold = 0.78\ngrouping_mode = "star"\n'))
+        # auto mode takes the LSH path when the project has >= lsh_auto_threshold fragments (default 500: one run on 560 generated
+        # fragments takes > 5 minutes, so the threshold is lowered instead of the project enlarged)
+        cfgs.append(("lsh-auto-3", '[clones]\nlsh_enabled = "auto"\nlsh_auto_threshold = 3\nlsh_similarity_threshold = 0.78\n'))
+        cfgs.append(("lsh-auto-3-default", '[clones]\nlsh_enabled = "auto"\nlsh_auto_threshold = 3\n'))
     ex = ThreadPoolExecutor(max_workers=8 if tier == "quick" else 12)
 
     def one(name, cfg, i):
@@ -774,7 +785,7 @@ def big_cli_finish(ck, st):
                                   % (name, [o[0] for o in outs], [o[2][-200:] for o in outs if o[1] is None][:1]))
             continue
         cl = [r.get("clone") or {} for r in reps]
-        if not all((c.get("request") or {}).get("lsh_enabled") in (True, "true") for c in cl):
+        if not all((c.get("request") or {}).get("lsh_enabled") in (True, "true", "auto") for c in cl):
             ck.broken_ties.append("the large-function runs did not take the LSH path (%s): request.lsh_enabled = %s"
                                   % (name, [(c.get("request") or {}).get("lsh_enabled") for c in cl][:2]))
         pairs_seen[name] = [len(c.get("clone_pairs") or []) for c in cl]
@@ -835,18 +846,31 @@ def main(tier):
     if tier != "quick":
         race_part(ck, projects)
     ck.cov.update({
-        "evaluations": ck.cov.get("cli_runs", 0) + ck.cov.get("site_orders_evaluated", 0),
-        "distinct_nontrivial": ck.cov.get("cli_option_sets", 0) + ck.cov.get("site_cases", 0),
+        "evaluations": ck.cov.get("cli_runs", 0) + ck.cov.get("site_orders_evaluated", 0) + big_runs
+                       + ck.cov.get("minhash_fragment_signatures_compared", 0),
+        "distinct_nontrivial": ck.cov.get("cli_option_sets", 0) + ck.cov.get("site_cases", 0) + ck.cov.get("big_cli_option_sets", 0)
+                               + ck.cov.get("minhash_requests", 0),
         "rule": "reports of N runs on unchanged files must be identical after dropping timestamps/durations/version "
                 "(N = 6 quick, 30 thorough; GOMAXPROCS 1/2/16); every emission site must give one output for all arrival orders "
-                "and that output must equal the Coq model's",
+                "and that output must equal the Coq model's; MinHash signatures / LSH band keys / candidate sets / estimates of one "
+                "feature set must be identical over repetitions in one process and over fresh processes, and be the MinHash of the set "
+                "(order- and repetition-independent, element-wise minimum over a union); reports of 4 (thorough 6) runs with LSH forced on "
+                "on families of large near-identical functions must be identical",
         "input_distribution": "testdata/python copy + generated tie-rich projects (equal complexities, two/three terminators within "
                               "5 lines, equal CBO with 3 dependencies, 4+ two-cycles and 3 three-cycles, four equal-length import chains "
                               "with a hub exhausting the path budget, 3 clone groups x 3 copies); per site: 2-16 items with duplicated "
-                              "primary keys, all permutations up to 4 items, else identity/reverse/random",
+                              "primary keys, all permutations up to 4 items, else identity/reverse/random; MinHash: feature sets "
+                              "with 10/100/255/256/257/300/500/1000 distinct features (thorough: also 1..4096 around every power of two) x "
+                              "(hashes, bands, rows) in {(128,32,4) default, (64,16,4), (120,24,5), (32,32,1)}, each as A / A reordered with "
+                              "repetitions / near-duplicate / two parts with union A, plus the fragments of the generated large functions; "
+                              "large-function projects: families of 3 near-identical random 70-125 (thorough -200) line functions chosen "
+                              "by measured LSH feature count (quick 262/290, thorough 258..520, one control <= 256), lsh_enabled=true, "
+                              "lsh_similarity_threshold default/0.78 (thorough 0.3..0.97), GOMAXPROCS 1/2/16; thorough: LSH auto "
+                              "mode with lsh_auto_threshold = 3 (a 500-fragment project costs > 5 min per run: not run)",
         "observable_orders": "Go randomises the start of every map range: with n >= 3 tied keys a missing tie-break shows up in 6 runs "
                              "with probability >= 1 - (1/3)^5; injected orders cover all n! orders for n <= 4",
-        "disagreements_checked": ck.cov.get("cli_sets_with_differences", 0) + ck.cov.get("site_order_dependences", 0),
+        "disagreements_checked": ck.cov.get("cli_sets_with_differences", 0) + ck.cov.get("site_order_dependences", 0)
+                                 + ck.cov.get("big_cli_sets_with_differences", 0) + ck.cov.get("minhash_requests_differing", 0),
         "timing_s": {"sites": round(t1 - t0, 1), "cli": round(time.time() - t1, 1)},
     })
     ck.trusted += [
